@@ -60,7 +60,7 @@ var props = map[string]propSpec{
 	"C13": {scenarios: []string{"C13", "C13r"}, level: "exploration", quickRuns: 2500, thoroughRuns: 60000, runLimit: 30 * time.Second,
 		requiredProbes: []string{"close:idle", "close:during-delivery", "close:save-in-flight", "shutdown-completed"}},
 	"C16": {scenarios: []string{"C16", "C16", "C16r"}, level: "exploration", quickRuns: 2500, thoroughRuns: 60000, runLimit: 30 * time.Second,
-		requiredProbes: []string{"scrape-judged", "counter-judged", "scrape-while-closed-or-closing"}},
+		requiredProbes: []string{"scrape-judged", "counter-judged", "scrape-while-closed-or-closing", "scrape-inside-callback"}},
 	"C11": {level: "exploration", quickRuns: 2500, thoroughRuns: 50000, runLimit: 30 * time.Second,
 		requiredProbes: []string{"reopen-judged", "notification-during-close", "notification-during-delay", "notification-while-reopening", "burst-of-several-notifications", "notification:api-rebalance"}},
 	"C02": {level: "exploration", quickRuns: 2500, thoroughRuns: 60000, runLimit: 30 * time.Second,
